@@ -1106,7 +1106,7 @@ class Engine:
 
     def digest(self, v, depth=0):
         if depth > 12:
-            return ('deep',)
+            return ('deep', next_oid())     # never equal to another key: a miss, not a collision
         fb = self.frozen_below
         if isinstance(v, Ref):
             c = v.cont
